@@ -38,6 +38,27 @@ pub fn gen(rng: &mut Rng, _tier: Tier) -> Value {
             st.prog.tables.clear();
         }
     }
+    if r.chance(1, 4) && !st.cfg.zero_knowledge {
+        // deep, mixed-arity schedule: three or four reduction layers of different arities on a circuit tall enough to carry them
+        let k = r.range(3, 4);
+        let mut ar: Vec<usize> = (0..k).map(|_| r.range(1, 3)).collect();
+        if ar.iter().all(|a| *a == ar[0]) {
+            ar[1] = if ar[0] == 1 { 2 } else { 1 };
+        }
+        let total: usize = ar.iter().sum();
+        let total = total.min(7);
+        st.cfg.strategy = Strat::Fixed(ar);
+        let x = st.prog.eval(&st.prog.inputs).map(|v| v.len()).unwrap_or(0);
+        if x > 0 {
+            // one Poseidon row per hash op
+            let src = (0..st.prog.inputs.len()).find(|i| matches!(st.prog.inputs[*i], Val::F(_)));
+            if let Some(src) = src {
+                for _ in 0..(1usize << total) {
+                    st.prog.ops.push(Op::Hash(vec![src]));
+                }
+            }
+        }
+    }
     if !st.cfg.zero_knowledge {
         st.cfg.num_query_rounds = *r.pick(&[28, 28, 40, 56, 84]);
     } else {
@@ -128,7 +149,14 @@ fn exec_c<C: GenericConfig<D, F = F>>(case: &Case, rep: &mut Report) {
     let faults: Vec<Fault> = match &case.only {
         Some((form, f)) if form == "compressed" => vec![f.clone()],
         Some(_) => vec![],
-        None => stratified(&leaves, &mut r, 1).into_iter().map(|p| Fault::Elem { path: p, kind: "plus1".into(), seed: 0 }).collect(),
+        None => {
+            let mut v: Vec<Fault> = stratified(&leaves, &mut r, 1).into_iter().map(|p| Fault::Elem { path: p, kind: "plus1".into(), seed: 0 }).collect();
+            // the public-input list itself: truncated / zero-extended (same unpadded hash when the values are zero)
+            for k in ["drop_last", "append_zero", "duplicate_last"] {
+                v.push(Fault::List { path: vec![Seg::K("public_inputs".into())], kind: k.into() });
+            }
+            v
+        }
     };
     for f in &faults {
         let mut t = tree.clone();
@@ -139,7 +167,7 @@ fn exec_c<C: GenericConfig<D, F = F>>(case: &Case, rep: &mut Report) {
             Ok(c) => c,
             Err(_) => continue,
         };
-        rep.fault("compressed.elem.plus1");
+        rep.fault(&format!("compressed.{}", f.kind()));
         rep.case(base_sig ^ hash_value(&serde_json::to_value(f).unwrap()), true);
         let direct = matches!(guarded(|| data.verify_compressed(c2.clone())), Ok(Ok(())));
         let via = match guarded(|| data.decompress(c2.clone())) {
